@@ -64,6 +64,11 @@ PROPS = {
                 partial=["termination of Close is a liveness property under a fair scheduler: the model theorems give the safety half (no send on the closed event channel, everything ended when it is closed, no dispatch after the loop); that Close returns within a bound is observed on real runs, not proved"]),
     "C13": dict(lean=["Mav.Props.C13"], groups=[("C13", sizes(30, 1500))],
                 trusted=["Go channel/select/goroutine semantics as modelled by Mav/Model/Node.lean"]),
+    "C14": dict(lean=["Mav.Props.C14"], groups=[("C14", sizes(30, 400))],
+                crash_signatures=[("crash:pion-udp-waitgroup", r"sync: (WaitGroup is reused|WaitGroup misuse|negative WaitGroup).*pion/transport/v2/udp")],
+                trusted=["the environment of a client-type endpoint is a script of connection-attempt outcomes and channel deaths (Mav/Model/Provider.lean); time is observed in units of the reconnect period (200 ms, set through the hook) with a tolerance of 0.42 period",
+                         "kernel TCP/UDP loopback behaviour (refused connections, RST on SO_LINGER 0, deadlines) as observed"],
+                partial=["idle expiry and deadlines: the theorems are about the read-loop and wrapper models; on real runs silent peers must be closed with a timeout cause and busy peers must stay open (server and client scenarios), and the deadlines handed to a recording net.Conn must be call time + timeout"]),
     "C17": dict(lean=["Mav.Props.C17"], groups=[("C17", sizes(1, 1))], table_crosscheck=True, preamble=dialects_preamble,
                 trusted=["published CRC_EXTRA values are represented by the spec recipe (serialization guide) and the values pinned in the repository; the C library's tables are not available offline"]),
     "C19": dict(lean=["Mav.Props.C19"], groups=[("C19", sizes(1, 1))], preamble=enums_preamble,
